@@ -527,6 +527,38 @@ def spec_glom_star_toggles(col):
         gcore.PATH_STAR = old
 
 
+def string_paths_under_both_settings(col):
+    """the same path TEXT evaluated under both PATH_STAR settings, in both orders and repeatedly: under each setting it means what
+    the Path built from its segments under that setting means ('*' / '**' are wildcards when the setting is on, plain keys when off)"""
+    target = lambda: {'a': {'*': 'star-key', '**': 'starstar-key', 'k': {'k': 1}}, '*': {'k': 'top-star'}, '**': {'k': 'top-starstar'}, 'k': 0}
+    texts = ['a.*', 'a.**', '**.k', '*.k', '**', '*', 'a.**.k', 'a.*.k', '*.**', 'a.k.**', 'k']
+    old = gcore.PATH_STAR
+    try:
+        with warnings.catch_warnings():
+            warnings.simplefilter('ignore')
+            for order in ([True, False, True, False], [False, True, False, True, True]):
+                for text in texts:
+                    for i, star in enumerate(order):
+                        gcore.PATH_STAR = star
+                        segs = [gcore._T_STAR if (star and seg == '*') else gcore._T_STARSTAR if (star and seg == '**') else seg
+                                for seg in text.split('.')]
+                        got, want = call(glom_pkg.glom, target(), text), call(glom_pkg.glom, target(), Path(*segs))
+                        col.case(('string-path-both-settings', text, order[0], i), True)
+                        col.count('path_star_toggles')
+                        sig = lambda o: ('ok', repr(o.value)) if o.ok else ('raised', type(o.exc).__name__, getattr(o.exc, 'part_idx', None))
+                        if sig(got) != sig(want):
+                            col.violation('C06/string-path-keeps-the-meaning-of-the-other-PATH_STAR-setting', "glom(target, %r) with PATH_STAR=%s as "
+                                          "evaluation #%d of that text (settings so far %r): %r ; the path built from its segments gives %r"
+                                          % (text, star, i + 1, order[:i + 1], got, want), None)
+                            break
+                # the second order must meet texts the first did not leave behind in the caches
+                texts = ['x.' + t for t in texts]
+                target0 = target
+                target = lambda target0=target0: {'x': target0()}
+    finally:
+        gcore.PATH_STAR = old
+
+
 def related_registration_history(col, rng):
     """registering a BASE of a type that was already looked up: the next call must behave as if the registration had
     been made first (compared with a cold registry that never saw the earlier calls)"""
@@ -689,6 +721,7 @@ def run(ctx):
     try:
         spec_glom_history(col, rng)
         spec_glom_star_toggles(col)
+        string_paths_under_both_settings(col)
         related_registration_history(col, rng)
         exact_registration_after_lookups(col, rng)
         one_spec_object_on_different_targets(col)
